@@ -23,6 +23,8 @@ pub mod c14;
 pub mod c15;
 pub mod c16;
 pub mod c17;
+pub mod c18;
+pub mod c19;
 
 #[derive(Clone, Copy, Debug, PartialEq, Eq)]
 pub enum Tier {
@@ -36,6 +38,8 @@ pub enum PanicPolicy {
   Violation,
   /// a panic only makes the case unevaluated (it belongs to C17 / C19)
   Count,
+  /// only a failed unsafe-site precondition is a violation (C19)
+  UnsafeOnly,
 }
 
 pub struct PropDef {
@@ -54,6 +58,7 @@ pub struct PropDef {
 pub fn enumeration(id: &str) -> Option<fn(u64, Tier) -> Option<Value>> {
   match id {
     "C16" => Some(c16::enum_case),
+    "C19" => Some(c19::enum_case),
     "C20" => Some(c14::enum_case20),
     "C12" => Some(c12::enum_case),
     _ => None,
@@ -61,7 +66,7 @@ pub fn enumeration(id: &str) -> Option<fn(u64, Tier) -> Option<Value>> {
 }
 
 pub fn all() -> Vec<PropDef> {
-  vec![c01::def(), c02::def(), c03::def(), c04::def(), c05::def(), c06::def(), c07::def(), c08::def(), c09::def(), c10::def(), c11::def(), c12::def(), c13::def(), c14::def(), c14::def20(), c15::def(), c16::def(), c17::def()]
+  vec![c01::def(), c02::def(), c03::def(), c04::def(), c05::def(), c06::def(), c07::def(), c08::def(), c09::def(), c10::def(), c11::def(), c12::def(), c13::def(), c14::def(), c14::def20(), c15::def(), c16::def(), c17::def(), c18::def(), c18::def_stress(), c18::def_miri(), c19::def(), c19::def_miri()]
 }
 
 pub fn find(id: &str) -> Option<PropDef> {
